@@ -485,6 +485,15 @@ def vectorizeM {σ ο : Type} (m : Machine σ (Item Int) ο) (dim : Nat) :
   compute := Vec.compute m
   reset := Vec.reset m
 
+/-- `FillComputeSeq(lambda x: f(x), el)` as a component of `Vectorize` (it is filled with bare values): `fill`
+preprocesses the value and fills `el`; `compute` is `el.compute()` (no elements after `el`); `Vectorize`
+finds `el` through `_fill_compute` and resets it.  `FillComputeSeq(el)` is the case `f = id`. -/
+def mapDataM {σ ο : Type} (f : Int → Int) (m : Machine σ (Item Int) ο) : Machine σ (Item Int) ο where
+  init := m.init
+  fill s v := m.fill s ⟨f v.data, v.ctx⟩
+  compute := m.compute
+  reset := m.reset
+
 /-- `Vectorize.__init__` argument check: a list of sequences must come without `dim`, a single
 sequence needs one -/
 def mkVectorizeDim (isList : Bool) (nseqs : Nat) (dim : Option Nat) : Except Err Nat :=
